@@ -132,6 +132,7 @@ def replay(ck, data):
     print('replay needs the source text of the design'); return 1
   d = {'src': case['src'], 'label': case.get('label', 'replay'), 'cycles': case.get('cycles'), 'features': []}
   if case.get('history'): d['history'], d['pick'] = case['history'], case['pick']
+  if case.get('aux'): d['aux'] = case['aux']          # further generated modules the design imports ({AUX0} ...)
   if d['cycles'] is None: d.pop('cycles')      # (a 'sim_src' entry of older replay files is ignored: the design is simulated as written)
   stats = {}
   be = case.get('backend', BE)
